@@ -340,11 +340,13 @@ func (s *ECDHSession) UnmarshalCBOR(data []byte) error {
 	}
 
 	var curve ecdh.Curve
-	switch s.randSize {
+	switch persist.RandSize {
 	case 16:
 		curve = ecdh.P256()
 	case 48:
 		curve = ecdh.P384()
+	default:
+		return fmt.Errorf("unsupported random size: %d", persist.RandSize)
 	}
 	key, err := curve.NewPrivateKey(persist.Key)
 	if err != nil && len(persist.Key) > 0 {
